@@ -21,22 +21,37 @@ Theorem c12_listener_refinement : forall ops n,
 Proof. exact listener_refinement. Qed.
 Print Assumptions c12_listener_refinement.
 
+(* the last update wins for every field an update applies (live AND dumped); the static fields (bind_port, type, network,
+   reuse_port, access_logs, default_read_buffer_size) of an existing listener are never changed by an update - neither in
+   the live listener nor in the dump: the dump describes the listener that is running, not the last request *)
 Theorem c12_listener_last_update_wins : forall ops n c,
-  live (u_run listener_flags (ops ++ [UAddOrUpdate n c])) n = Some (fresh c).
+  let s := u_run listener_flags ops in
+  live (u_run listener_flags (ops ++ [UAddOrUpdate n c])) n = Some (fresh (after_update (stored s n) c)) /\
+  stored (u_run listener_flags (ops ++ [UAddOrUpdate n c])) n = Some (after_update (stored s n) c).
 Proof. exact last_update_wins. Qed.
+
+Theorem c12_listener_update_keeps_static : forall ops n c p,
+  stored (u_run listener_flags ops) n = Some p ->
+  option_map lc_static (stored (u_run listener_flags (ops ++ [UAddOrUpdate n c])) n) = Some (lc_static p) /\
+  option_map ll_static (live (u_run listener_flags (ops ++ [UAddOrUpdate n c])) n) = Some (lc_static p).
+Proof. exact update_keeps_static. Qed.
 
 Theorem c12_listener_removed_is_gone : forall ops n,
   live (u_run listener_flags (ops ++ [URemove n])) n = None /\ stored (u_run listener_flags (ops ++ [URemove n])) n = None.
 Proof. exact removed_is_gone. Qed.
 
-(* non-vacuity + the three defective shapes (each switch off), kept so that a regression shows which clause is lost *)
+(* non-vacuity + the defective shapes (each switch off), kept so that a regression shows which clause is lost *)
 Example c12_listener_example :
-  let a := mkLC [1] true 1 0 in let b := mkLC [1] false 2 1 in
-  observe (live (u_run listener_flags [UAddOrUpdate 0 a; UAddOrUpdate 0 b]) 0) = (true, true, 1, false, 2, true) /\
+  let a := mkLC [1] true 1 0 0 in let b := mkLC [1] false 2 1 3 in
+  observe (live (u_run listener_flags [UAddOrUpdate 0 a; UAddOrUpdate 0 b]) 0) = (true, true, 1, false, 2, true, 0) /\
+  option_map lc_static (stored (u_run listener_flags [UAddOrUpdate 0 a; UAddOrUpdate 0 b]) 0) = Some 0 /\
   (* inspector assigned after the manager is built: the live manager is one update behind the stored config *)
-  observe (live (u_run (mkF false true true) [UAddOrUpdate 0 a; UAddOrUpdate 0 b]) 0) = (true, true, 1, true, 2, true) /\
+  observe (live (u_run (mkF false true true true) [UAddOrUpdate 0 a; UAddOrUpdate 0 b]) 0) = (true, true, 1, true, 2, true, 0) /\
   (* idle time-out not recorded: the stored config keeps the old one *)
-  option_map lc_idle (stored (u_run (mkF true false true) [UAddOrUpdate 0 a; UAddOrUpdate 0 b]) 0) = Some 0 /\
+  option_map lc_idle (stored (u_run (mkF true false true true) [UAddOrUpdate 0 a; UAddOrUpdate 0 b]) 0) = Some 0 /\
   (* delete does not clear the stored config *)
-  stored (u_run (mkF true true false) [UAddOrUpdate 0 a; URemove 0]) 0 = Some a.
+  stored (u_run (mkF true true false true) [UAddOrUpdate 0 a; URemove 0]) 0 = Some a /\
+  (* the update request is stored instead of the running listener's config: the dump shows static fields the listener does not have *)
+  (let s := u_run (mkF true true true false) [UAddOrUpdate 0 a; UAddOrUpdate 0 b] in
+   option_map lc_static (stored s 0) = Some 3 /\ option_map ll_static (live s 0) = Some 0).
 Proof. vm_compute. repeat split; reflexivity. Qed.
